@@ -992,4 +992,19 @@ def cases(tier):
         for it in items:
             if it["group"] not in small:
                 out.append(group(it["name"], [it]))
+    # expect_batch across a genuine (chi = 2) QR on either side of the centre: shared with C13
+    from harness.c13 import mps_expect_batch_entangled
+
+    for side in ("left", "right"):
+        out.append(
+            Case(
+                f"mps_expect_batch_entangled_{side}",
+                mps_expect_batch_entangled(side),
+                covers=[("emu_mps/mps.py", "MPS.expect_batch")],
+                bounds={"sites": 3, "bond_dims": [2, 1] if side == "left" else [1, 2], "centre": 1, "qr": "known factorisation Q0 R0, every valid QR answer (Q0 D, D* R0)", "amplitudes": "complex"},
+                canaries=["mirror_sites"],
+                weight=200,
+                timeout_ms=60000,
+            )
+        )
     return out
